@@ -46,9 +46,11 @@ def _rot(rng, n):
   return R
 
 
-def _geomray(rng, n, plane=False):
-  """pos, mat, size, pnt, vec: rays aimed at / near a geom from outside and inside, axis-parallel rays in
-  the geom frame (the |lvec[i]| > MJ_MINVAL branches), grazing offsets, non-unit directions."""
+def _geomray(rng, n, plane=False, kind=None):
+  """pos, mat, size, pnt, vec: rays aimed at / near a geom from outside; rays STARTING INSIDE the geom (35% when
+  `kind` names the geom type: spread over its whole interior, capsule cylindrical section and cap regions
+  included) leaving through every face / cap; axis-parallel rays in the geom frame (the |lvec[i]| > MJ_MINVAL
+  branches), grazing offsets, non-unit directions."""
   pos = rng.uniform(-1, 1, (n, 3))
   mat = _rot(rng, n)
   size = rng.uniform(0.05, 0.5, (n, 3))
@@ -58,8 +60,6 @@ def _geomray(rng, n, plane=False):
   off = rng.standard_normal((n, 3))
   off /= np.linalg.norm(off, axis=1, keepdims=True)
   pnt = pos + off * rng.uniform(0, 2.0, (n, 1))
-  inside = rng.random(n) < 0.15
-  pnt[inside] = (pos + np.einsum("nij,nj->ni", mat, rng.uniform(-0.5, 0.5, (n, 3)) * size))[inside]
   tl = rng.uniform(-1.3, 1.3, (n, 3)) * size
   tgt = pos + np.einsum("nij,nj->ni", mat, tl)
   vec = tgt - pnt
@@ -70,6 +70,14 @@ def _geomray(rng, n, plane=False):
   e = np.zeros((n, 3))
   e[np.arange(n), rng.integers(0, 3, n)] = rng.choice([-1.0, 1.0], n)
   vec[ax] = np.einsum("nij,nj->ni", mat, e)[ax]
+  if kind is not None:
+    inside = rng.random(n) < 0.35
+    lp = G.inside_local(rng, kind, size, n)
+    pnt[inside] = (pos + np.einsum("nij,nj->ni", mat, lp))[inside]
+    vec[inside] = np.einsum("nij,nj->ni", mat, G.exit_dirs(rng, n))[inside]
+  else:
+    inside = rng.random(n) < 0.15
+    pnt[inside] = (pos + np.einsum("nij,nj->ni", mat, rng.uniform(-0.5, 0.5, (n, 3)) * size))[inside]
   vec *= rng.choice([1.0, 1.0, 1.0, 0.5, 3.0], (n, 1))
   vec[rng.random(n) < 0.02] = 0.0
   f = np.float32
@@ -85,13 +93,17 @@ def g_plane(rng, n):
 
 
 def g_sphere(rng, n):
-  pos, mat, size, pnt, vec = _geomray(rng, n)
+  pos, mat, size, pnt, vec = _geomray(rng, n, kind="sphere")
   return [pos, (size[:, 0] ** 2).astype(np.float32), pnt, vec]
 
 
 def g_geom(rng, n):
-  a = _geomray(rng, n)
   t = rng.choice([0, 2, 3, 4, 5, 6, 6, 1, 7, 8], n).astype(np.int32)
+  a = _geomray(rng, n)
+  for tt, kind in ((2, "sphere"), (3, "capsule"), (4, "ellipsoid"), (5, "cylinder"), (6, "box")):
+    b = _geomray(rng, n, kind=kind)
+    for j in range(5):
+      a[j][t == tt] = b[j][t == tt]
   # unlimited plane sides (size 0) only for planes: a zero semi-axis of an ellipsoid is a degenerate geom whose
   # float32 discriminant is pure cancellation noise (not a translation question)
   z = (t == 0) & (rng.random(n) < 0.5)
@@ -149,7 +161,8 @@ def g_triangle(rng, n):
 
 GEN = {
   "_ray_map": g_map, "_ray_quad": g_quad, "_orthogonal_basis": g_basis, "_ray_triangle": g_triangle, "ray_plane": g_plane,
-  "ray_sphere": g_sphere, "ray_capsule": g_prim, "ray_ellipsoid": g_prim, "ray_cylinder": g_prim, "ray_box": g_prim, "ray_geom": g_geom,
+  "ray_sphere": g_sphere, "ray_capsule": lambda rng, n: _geomray(rng, n, kind="capsule"), "ray_ellipsoid": lambda rng, n: _geomray(rng, n, kind="ellipsoid"),
+  "ray_cylinder": lambda rng, n: _geomray(rng, n, kind="cylinder"), "ray_box": lambda rng, n: _geomray(rng, n, kind="box"), "ray_geom": g_geom,
 }  # fmt: skip
 
 
@@ -185,6 +198,8 @@ def build(xml, rng, nworld=2, dq=0.25):
   dd.qpos = wp.array(np.array(qs, dtype=np.float32), dtype=float)
   mjw.kinematics(mm, dd)
   mjw.camlight(mm, dd)
+  if m.nflex:
+    mjw.flex(mm, dd)
   ds = []
   for w in range(nworld):
     dw = mujoco.MjData(m)
@@ -391,10 +406,21 @@ def flex_stride_correspondence(res, tr, nscenes, nrays, nworld=3):
 
 
 # ---------------------------------------------------------------- oracle 1: mjw.ray / rays vs mujoco.mj_ray
-def oracle_mj(res, nscenes, nrays, scales, types, tag):
+def put_inside(rng, m, ds, pnt, vec, frac, scales=(1.0,)):
+  """overwrite the last `frac` of every world's rays by rays that start INSIDE a geom of that world's pose"""
+  k = int(round(frac * pnt.shape[1]))
+  for w in range(pnt.shape[0]):
+    pi, vi = G.inside_rays(rng, m, ds[w], k, scales)
+    if len(pi):
+      pnt[w, -len(pi):], vec[w, -len(pi):] = pi, vi
+  return k
+
+
+def oracle_mj(res, nscenes, nrays, scales, types, tag, inside=0.3, filters=True):
   """random scenes; returns list of failing cases (dicts).  With `scales` == (1.0,) and every type this is
-  the property itself; non-unit directions on mesh / hfield geoms are the recorded defect."""
-  rng = np.random.default_rng(vlib.seed() + 3402 + (7 if tag == "nonunit" else 0))
+  the property itself.  A fraction `inside` of the rays starts inside a geom (every closed type, capsule
+  cylindrical section and caps included) and leaves through any face / cap."""
+  rng = np.random.default_rng(vlib.seed() + 3402 + (7 if tag == "nonunit" else 0) + (11 if tag == "inside" else 0))
   fails, ncmp, ndisc, nhit = [], 0, 0, 0
   for s in range(nscenes):
     xml = G.scene(rng, types=types)
@@ -404,9 +430,12 @@ def oracle_mj(res, nscenes, nrays, scales, types, tag):
     shared = s % 4 == 3  # (1, nray) origins shared by the worlds: the `worldid % shape[0]` path
     if shared:
       pnt, vec = pnt[:1], vec[:1]
-    gg = [-1] * 6 if rng.random() < 0.4 else rng.integers(0, 2, 6).tolist()
-    flg_static = bool(rng.random() < 0.6)
-    bex = rng.integers(-1, m.nbody, nrays)
+    kin = put_inside(rng, m, ds, pnt, vec, inside, scales)
+    gg = [-1] * 6 if (not filters or rng.random() < 0.4) else rng.integers(0, 2, 6).tolist()
+    flg_static = bool(not filters or rng.random() < 0.6)
+    bex = rng.integers(-1, m.nbody, nrays) if filters else np.full(nrays, -1)
+    if kin:
+      bex[-kin:] = -1
     dist, gid, nrm = cast(mm, dd, pnt, vec, gg, flg_static, bex)
     for w in range(2):
       for r in range(nrays):
@@ -447,9 +476,11 @@ def oracle_bvh(res, nscenes, nrays):
     mjw.refit_bvh(mm, dd, rc)
     pnt, vec = G.random_rays(rng, 2 * nrays, centers=ds[0].geom_xpos)
     pnt, vec = pnt.reshape(2, nrays, 3), vec.reshape(2, nrays, 3)
+    kin = put_inside(rng, m, ds, pnt, vec, 0.25)
     gg = [-1] * 6 if rng.random() < 0.4 else rng.integers(0, 2, 6).tolist()
     flg_static = bool(rng.random() < 0.6)
     bex = rng.integers(-1, m.nbody, nrays)
+    bex[-kin:] = -1
     a = cast(mm, dd, pnt, vec, gg, flg_static, bex)
     b = cast(mm, dd, pnt, vec, gg, flg_static, bex, rc)
     for w in range(2):
@@ -632,6 +663,8 @@ def run(res):
   found = False
   # the property itself: unit directions, every geom type
   f1 = oracle_mj(res, 40 if quick else 400, 30, (1.0,), G.PRIMS + ("mesh", "hfield"), "unit")
+  # rays starting inside geoms only, no filters: every closed geom type, leaving through every face / cap
+  f1 += oracle_mj(res, 20 if quick else 200, 30, (1.0,), ("sphere", "capsule", "cylinder", "box", "ellipsoid", "mesh", "capsule", "cylinder"), "inside", inside=1.0, filters=False)
   # any |vec| on primitives (mj_ray semantics: distance in units of |vec|)
   f2 = oracle_mj(res, 15 if quick else 150, 30, (0.5, 3.0, 0.01, 100.0), G.PRIMS, "scaled-primitives")
   # any |vec| on mesh / hfield (repaired in /repo 8617230; a relapse is reported under the original key)
